@@ -1,2 +1,75 @@
-(* C14 — placeholder until the proofs land (statements are added only when proved). *)
-From BWPlanner Require Import Terms.
+(* C14 — query results depend only on data and query meaning, not on order or scheduling.
+   PARTIAL: goroutine scheduling, channel / bulk sizes and GOMAXPROCS are only exercised by the correspondence run
+   (checks/c14.py); the model has no such parameter.  What is proved: the model's statement of scheduler independence
+   (the per-row fan-out is a fold whose result multiset is invariant under permutation of the work list), and the
+   invariances of the specification (clause order, data partitioning, monotonicity).
+   OPEN (design-notes/C14.md): renaming invariance; transfer of clause-order invariance to the model (needs the C03
+   composition theorem). *)
+From Coq Require Import List ZArith NArith Bool Permutation.
+Import ListNotations.
+From BWPlanner Require Import Terms Rows Clause Store Fetch Plan PatternSpec Current Corr Witnesses RowsProofs FetchProofs PlanProofs SpecProofs.
+
+(* ---- scheduler independence, as far as the model can state it: specifyClauseWithTable starts one addSpecifiedData per row
+   and appends in completion order; whatever the completion order, the table holds the same multiset of rows ... *)
+Theorem C14_completion_order :
+  forall e gs lo c rows rows' out, Permutation rows rows' ->
+    specify_rows e gs lo c rows = Ok out ->
+    exists out', specify_rows e gs lo c rows' = Ok out' /\ Permutation out out'.
+Proof. exact specify_rows_perm. Qed.
+Print Assumptions C14_completion_order.
+
+(* ... and a failure (error / panic of some row) is a failure in every order *)
+Theorem C14_completion_order_failure :
+  forall e gs lo c rows rows', Permutation rows rows' ->
+    (forall out, specify_rows e gs lo c rows <> Ok out) -> (forall out, specify_rows e gs lo c rows' <> Ok out).
+Proof. exact specify_rows_perm_fail. Qed.
+Print Assumptions C14_completion_order_failure.
+
+(* ---- the specification: an assignment is a solution whatever the order in which the clauses are written ... *)
+Theorem C14_clause_order :
+  forall cs cs' glo gs mu, Permutation cs cs' -> (is_solution cs glo gs mu <-> is_solution cs' glo gs mu).
+Proof. exact is_solution_clause_order. Qed.
+Print Assumptions C14_clause_order.
+
+(* ... however the triples are distributed over the graphs listed in FROM ... *)
+Theorem C14_partition :
+  forall cs glo gs gs' mu, same_data gs gs' -> (is_solution cs glo gs mu <-> is_solution cs glo gs' mu).
+Proof. exact is_solution_partition. Qed.
+Print Assumptions C14_partition.
+
+Theorem C14_partition_reference :
+  forall glo gs gs' cs r, forallb (fun c => negb (c_opt c)) cs = true -> same_data gs gs' ->
+    (In r (spec_solutions glo gs cs) <-> In r (spec_solutions glo gs' cs)).
+Proof. exact spec_solutions_partition. Qed.
+Print Assumptions C14_partition_reference.
+
+(* ... and adding triples never removes a row of a query without OPTIONAL *)
+Theorem C14_monotone :
+  forall cs glo gs gs' mu, more_data gs gs' -> is_solution cs glo gs mu -> is_solution cs glo gs' mu.
+Proof. exact is_solution_monotone. Qed.
+Print Assumptions C14_monotone.
+
+Theorem C14_monotone_reference :
+  forall glo gs gs' cs r, forallb (fun c => negb (c_opt c)) cs = true -> more_data gs gs' ->
+    In r (spec_solutions glo gs cs) -> In r (spec_solutions glo gs' cs).
+Proof. exact spec_solutions_monotone. Qed.
+Print Assumptions C14_monotone_reference.
+
+(* non-vacuity: the hypotheses hold of real cases (a two-clause pattern, a two-row work list) *)
+Example C14_example :
+  forallb (fun c => negb (c_opt c)) (q_clauses (w_join_kind (current true false))) = true /\
+  length (q_clauses (w_join_kind (current true false))) = 2%nat.
+Proof. vm_compute. split; reflexivity. Qed.
+
+(* ---- refuted: clause order matters to the planner outside the supported fragment: the same two clauses give an error in
+   one order (fully specified clause after a bound one) and the solution in the other *)
+Theorem C14_clause_order_refuted :
+  exists q q', Permutation (q_clauses q) (q_clauses q') /\ q_graphs q = q_graphs q' /\ q_cfg q = current true false /\
+               q_cfg q' = current true false /\ run_model q = Err EAppend /\ exists res, run_model q' = Ok res /\ snd res <> [].
+Proof.
+  exists (w_spec3_after_bound (current true false)).
+  exists (let q := w_spec3_after_bound (current true false) in
+          mkCase (q_cfg q) (q_graphs q) (rev (q_clauses q)) (q_lo q) (q_outs q) (q_projs q)).
+  split; [apply Permutation_rev|]. vm_compute. repeat split. eexists. split; [reflexivity|discriminate].
+Qed.
+Print Assumptions C14_clause_order_refuted.
